@@ -110,6 +110,8 @@ func randPlanFaulty(r *Rng, n int) string {
 // generated, when an operation budget is configured).
 func resourceAdversarial(r *Rng) string {
 	return Pick(r, []string{
+		"a=[1]; b=[1]; i=0; while i<45 { a=[a,a]; b=[b,b]; i=i+1 }; a == b", "a={'k':1}; b={'k':1}; i=0; while i<45 { a={'x':a,'y':a}; b={'x':b,'y':b}; i=i+1 }; a == b", "a=[1]; b=[2]; i=0; while i<45 { a=[a,a]; b=[b,b]; i=i+1 }; a != b",
+		"a=[1]; b=[1]; i=0; while i<45 { a=[a,a,a]; b=[b,b,b]; i=i+1 }; [a] == [b]",
 		"s='x'; i=0; while i<40 { s = s + s; i=i+1 }; 1",
 		"s='x'; i=0; while i<60 { s = `{s}{s}`; i=i+1 }; 1",
 		"xs=[1,2]; i=0; while i<20 { xs = xs + xs; i=i+1 }",
@@ -144,6 +146,7 @@ func adversarial(r *Rng) string {
 		"x = {}; x.y.z", "null.x", "1.x", "'s'.len()", "[1,2][5]", "'abc'[10]", "''[0]", "'abc'[-9]", "[1,2,3][2:1]",
 		"a=[1]; a.push(a); a", "o={'k':1}; o.self=o; o", "a=[1]; a.push(a); a.push(a); a", "m={'k':1}; m.x=m; m.y=m; m", "m={'k':1}; a=[m,m]; m.x=a; m.y=a; a",
 		"a=[1]; a.push(a); b2=[1]; b2.push(b2); a == b2", "a=[1]; a.push(a); a == a", "m={'k':1}; m.x=m; n2={'k':1}; n2.x=n2; m == n2", "a=[1]; a.push(a); `{a}`", "a=[1]; a.push(a); repr(a)", "a=[1]; a.push(a); [a,a] == [a,a]",
+		"&ca = 1; &ca.me = &ca; &cb = 1; &cb.me = &cb; &ca == &cb", "&ca = 1; &ca.me = &ca; &cb = 1; &cb.me = &cb; [&ca] == [&cb]", "&ca = d6; &cb = d6; &ca.x = [&ca]; &cb.x = [&cb]; {'v': &ca} == {'v': &cb}", "&ca = 1; &ca.me = &ca; &ca == &ca", "&ca = 1; &cb = 1; &ca.o = &cb; &cb.o = &ca; &ca != &cb",
 		"&cc = 1; &cc.me = cc; cc", "a=[1]; a.push(a); a.sum()", "a=[1]; a.push(a); a + a", "a=[1]; a.push(a); a * 3", "[1,2,3].kh('x')", "[1,2,3].kl(1.5)",
 		"dct = {}; dct.k = dct['j'] = []", "d || [1,2]", "this.x = 5; this.x", "5\n{'a':1",
 		"load('x')", "load(1)", "store('y', 2); y", "store(1,2)", "dir(1)", "dir([])", "abs('x')", "toInt('zz')", "toInt([])", "floor('x')",
@@ -154,6 +157,9 @@ func adversarial(r *Rng) string {
 		"^st", "^st 力量", "^st &=1", "^st 力量*:", "^st''=1",
 		"// #EnableDice coc true\nb1 + p1", "// #EnableDice wod true\n3a8", "// #EnableDice", "//",
 		"1 2 3", "d", "dd", "ddd", "d优势", "3d优势", "d0", "0d6", "1d0", "d(0)", "2d-1",
+		// prototype chains: looping, deep, through non-dicts
+		"o = {'k':1}; o.__proto__ = o; o.zz", "pa = {}; pb = {'__proto__': pa}; pa.__proto__ = pb; pa.q + 1", "o = {'__proto__': 5}; o.x", "o = {'__proto__': [1]}; o.len()", "p0 = {'v': 1}; p1 = {'__proto__': p0}; p2 = {'__proto__': p1}; p2.v + p2.w",
+		"o = {}; o.__proto__ = o; o.keys()", "o = {}; o.__proto__ = o; `{o.nope}`", "o = {}; o.__proto__ = o; o.zz = 1; o.zz + o.yy",
 		"\x1e{1}\x1e", "`{1}{2}{%3%}`", "\x00", "\xff\xfe", "１＋２", "1＋2－3＊4／5",
 	})
 }
